@@ -16,9 +16,10 @@ const (
 )
 
 var (
-	ErrPIDNotFound      = errors.New("astits: PID not found")
-	ErrPIDAlreadyExists = errors.New("astits: PID already exists")
-	ErrPCRPIDInvalid    = errors.New("astits: PCR PID invalid")
+	ErrPIDNotFound       = errors.New("astits: PID not found")
+	ErrPIDAlreadyExists  = errors.New("astits: PID already exists")
+	ErrPCRPIDInvalid     = errors.New("astits: PCR PID invalid")
+	ErrPESHeaderTooLarge = errors.New("astits: PES header too large")
 )
 
 type Muxer struct {
@@ -182,6 +183,11 @@ func (m *Muxer) WriteData(d *MuxerData) (int, error) {
 		return 0, ErrPIDNotFound
 	}
 
+	// A PES header that can't fit in one packet can't be written at all
+	if pesHeaderLength+int(calcPESOptionalHeaderLength(d.PES.Header.OptionalHeader)) > m.packetSize-1-mpegTsPacketHeaderSize {
+		return 0, ErrPESHeaderTooLarge
+	}
+
 	bytesWritten := 0
 
 	forceTables := d.AdaptationField != nil &&
@@ -202,7 +208,7 @@ func (m *Muxer) WriteData(d *MuxerData) (int, error) {
 		pktLen := 1 + mpegTsPacketHeaderSize // sync byte + header
 		pkt := Packet{
 			Header: PacketHeader{
-				ContinuityCounter:         uint8(ctx.cc.inc()),
+				ContinuityCounter:         uint8(ctx.cc.get()) & 0xf,
 				HasAdaptationField:        writeAf,
 				HasPayload:                false,
 				PayloadUnitStartIndicator: false,
@@ -236,7 +242,19 @@ func (m *Muxer) WriteData(d *MuxerData) (int, error) {
 			pkt.Header.HasPayload = true
 		}
 
+		if !pkt.Header.HasPayload {
+			// The adaptation field leaves no room for the PES header: it travels alone, in a packet
+			// without payload, which doesn't increment the continuity counter
+			n, err = writePacket(m.bitsWriter, &pkt, m.packetSize)
+			if err != nil {
+				return bytesWritten, err
+			}
+			bytesWritten += n
+			d.AdaptationField.StuffingLength = 0
+		}
+
 		if pkt.Header.HasPayload {
+			pkt.Header.ContinuityCounter = uint8(ctx.cc.inc())
 			m.buf.Reset()
 			if d.PES.Header.StreamID == 0 {
 				d.PES.Header.StreamID = ctx.es.StreamType.ToPESStreamID()
